@@ -242,3 +242,73 @@ def ievents(evs):
             out.append(e)
             break
     return out
+
+
+# ---------------------------------------------------------------- v5 segments (C06)
+def toy_compress(data):
+    """run-length pairs (count 1..255, byte), preceded by the 4-byte big-endian uncompressed length -- the shape lz4.block has"""
+    data = bytes(data)
+    out = bytearray(struct.pack('>i', len(data)))
+    i = 0
+    while i < len(data):
+        j = i
+        while j < len(data) and data[j] == data[i] and j - i < 255:
+            j += 1
+        out += bytes([j - i, data[i]])
+        i = j
+    return bytes(out)
+
+
+def toy_decompress(data):
+    data = bytes(data)
+    n = struct.unpack('>i', data[:4])[0]
+    out = bytearray()
+    for k in range(4, len(data) - 1, 2):
+        out += bytes([data[k + 1]]) * data[k]
+    if len(out) != n:
+        raise ValueError('toy_decompress: length mismatch')
+    return bytes(out)
+
+
+def codec(compressed):
+    C, S = _mods()
+    return S.SegmentCodec(toy_compress, toy_decompress) if compressed else S.SegmentCodec()
+
+
+def encode_segment(cd, payload, self_contained=True):
+    b = io.BytesIO()
+    cd._encode_segment(b, bytes(payload), self_contained)
+    return b.getvalue()
+
+
+def encode_msg(cd, msg):
+    b = io.BytesIO()
+    cd.encode(b, bytes(msg))
+    return b.getvalue()
+
+
+def run_segments(chunks, compressed, reqs=(), pv=5):
+    """feed chunks to a checksumming connection; -> (events, per-read obs, final (io bytes, frame-buffer bytes))"""
+    Conn = fake_conn_class()
+    holder = [None]
+    with PushRecorder(holder):
+        c = Conn(protocol_version=pv)
+        holder[0] = c
+        c.watch()
+        c.enable_checksumming(codec(compressed))
+        for r in reqs:
+            c.expect(r)
+        obs = []
+        for ch in chunks:
+            if not c.is_defunct:
+                c.feed(ch)
+            n = len(ievents(c.events))
+            if c.is_defunct:
+                obs.append((n, -1, -1))
+            else:
+                obs.append((n, len(c._io_buffer.io_buffer.getvalue()), len(c._io_buffer.cql_frame_buffer.getvalue())))
+        if c.is_defunct:
+            fin = (b'', b'')
+        else:
+            fin = (c._io_buffer.io_buffer.getvalue(), c._io_buffer.cql_frame_buffer.getvalue())
+        return list(c.events), obs, fin
